@@ -403,6 +403,11 @@ def run(chk, P):
     from rules import pagestate
     pagestate.packet_filled(chk, P, 'R03.8')
     chk.floor('R03.8', 8)
+    import k3
+    E = getattr(P, '_effects', None) or k3.Effects(P)
+    P._effects = E
+    pagestate.page_valid(chk, P, E, 'R03.9')
+    chk.floor('R03.9', 20)
     r03_3(chk, P)
     chk.floor('R03.3', 10)
     chk.rule('R03.4', 'failed opens store NULL into vf->datasource before ov_clear on every path; the close callback has one '
